@@ -147,7 +147,7 @@ def main(argv=None):
     for l in known_lines:
         print(l)
     for g in undecided:
-        print('UNDECIDED property=%s group=%s: %s' % (pid, g.name, g.result['undecided'][:4000]))
+        print('UNDECIDED property=%s group=%s: %s' % (pid, g.name, g.result['undecided'][:1500]))
     wall = time.time() - t0
     if not a.no_evidence and not a.only and a.src == '/repo':
         evidence.write(ctx, mod, groups, wall, len(violations))
